@@ -71,6 +71,45 @@ def check(prog, res, tier):
             ob.construct += f' [{tag}]'
             res.add(ob)
 
+    # ---- C09.b what the container protocol calls behind the caller's back: list(reader) asks __len__ / __length_hint__ first.
+    # If a reader has one, it escapes nothing but the library error and leaves the file where it was.
+    for cq in ('mciipm.VbsReader', 'mciipm.IpmReader'):
+        ci_ = prog.cls(cq)
+        for mname in ('__len__', '__length_hint__'):
+            r_ = ci_.lookup(mname)
+            if not (r_ and r_[0] == 'method'):
+                continue
+            lfi = r_[1]
+
+            def entry_len(it, cq=cq, lfi=lfi):
+                from . import readers as _rd, common as _cm
+                from .decode import codec as _codec
+                kw = {'encoding': _codec(it), 'iso_config': _cm.generic_bit_config(it)} if cq.endswith('IpmReader') else {}
+                obj, f = _rd.make_vbs_reader(it, prog, cq, blocked=None, extra_kwargs=kw)
+                return it.call_function(lfi, [], {}, self_obj=obj)
+            runs_len = Runs(prog, entry_len, raise_ops=True, res=res)
+
+            def chk_len(p, mode, mname=mname):
+                if p.outcome == 'raise':
+                    k = exc_key(p.value.cls)
+                    if p.value.cls is TypeError:
+                        return []       # "has no len()": the length-hint protocol of list() swallows TypeError and goes on
+                    if k != MLIB:
+                        return [definite(f'{mname}() of the reader, which list(reader) calls before the first record, lets '
+                                         f'{p.value!r} escape: a cut file ends in a traceback instead of records and the library error',
+                                         getattr(p.value, 'raise_node', None) or p.value.node)]
+                    return []
+                if p.outcome == 'return':
+                    f = p.interp.user['file']
+                    return need_eq0(p.store, f.pos - p.interp.user['pos0'], f'{mname}() moves the file position: the records it '
+                                                                            f'skipped are lost to the iteration that follows')
+                return []
+            chk_len.no_return_ok = True
+            ob = runs_len.judge('C09.b', f'{ci_.name}.{mname} (called by list() / length hints) escapes only the library error and does '
+                                         f'not move the file', func_where(lfi), f'def {mname}(self)', chk_len,
+                                rule=f'C09.b.{ci_.name}.{mname}')
+            res.add(ob)
+
     # ---- C09.c unblocker: final partial block
     ufi = prog.func(c05.READ)
     runs_u = Runs(prog, c05.unblock_entry(prog, True), res=res)
